@@ -2,7 +2,7 @@
 from common import Scenario
 
 NAMESPACES = ["-", "-", "a", "/a", "a/b", "/a/"]
-KEYS = ["k", "j", "b/k", "/a/k", "/z", "/a/b/j", "/a", "b", "kk"]      # "/a", "b": keys AND namespaces of other keys; "kk": "k" is a string prefix of it
+KEYS = ["k", "j", "b/k", "/a/k", "/z", "/a/b/j", "/a", "b", "kk", "_u"]      # "/a", "b": keys AND namespaces of other keys; "kk": "k" is a string prefix of it; "_u": looks like a private Python attribute
 LOCS = ["/L", "/a/k", "/shared", "/z", "/{r}"]      # "/{r}": a name with a brace field (names are opaque text)
 VALS = ["i:0", "i:1", "i:2", "b:1", "b:0", "n", "t:x", "t:y", "o{p=i:1}", "o{p=i:2,q=o{r=t:z}}", "o{q=o{r=i:0}}",
         "o{q=o{r=o{u=i:5}}}"]
@@ -112,7 +112,13 @@ class BbGen(object):
         if r < 0.38:
             return "getattr %d %s" % (c, self.key_for(c))
         if r < 0.50:
-            return "set %d %s %s %s" % (c, self.name_for(c), v, "1" if rng.random() < 0.65 else "0")
+            nm = self.name_for(c)
+            if "." in nm and "/" in nm.split(".")[0].lstrip("/") and rng.random() < 0.25:
+                # the same nested name spelt with dots for the namespace separators too (ns.key.attr): for set() that is
+                # the key `ns` with the attribute path key.attr - another variable altogether
+                head, _, path = nm.partition(".")
+                nm = head.lstrip("/").replace("/", ".") + "." + path
+            return "set %d %s %s %s" % (c, nm, v, "1" if rng.random() < 0.65 else "0")
         if r < 0.60:
             return "get %d %s" % (c, self.name_for(c))
         if r < 0.66:
